@@ -49,6 +49,12 @@ pub struct Plan {
     /// where burnfee / elapsed has a fractional part well above one half (the requirement rounds up there)
     #[serde(default)]
     pub boundary: bool,
+    /// payout mode: before the honest block of step `.0` a rival block on the same parent is offered whose
+    /// golden ticket does not solve the parent's lottery: kind `.1` 0 = solved (at the parent's difficulty) against
+    /// the grandparent's hash, 1 = against the genesis block's hash, 2 = against a made-up hash, 3 = aimed at the
+    /// parent but not meeting its difficulty. Only where the parent's difficulty is > 0.
+    #[serde(default)]
+    pub bad_ticket: Option<(usize, u8)>,
 }
 
 const HB: u64 = 1000;
@@ -70,21 +76,24 @@ fn gen(seed: u64, tier: Tier) -> Plan {
         dts.sort();
         let mid_chain = rng.chance(1, 4);
         let boundary = rng.chance(1, 5);
-        Plan { seed, mode: "work".into(), prefix: rng.range(1, 3) as usize, txs, dts, blocks: vec![], mid_chain, boundary }
+        Plan { seed, mode: "work".into(), prefix: rng.range(1, 3) as usize, txs, dts, blocks: vec![], mid_chain, boundary, bad_ticket: None }
     } else {
         let n = rng.range(4, if tier == Tier::Quick { 10 } else { 20 }) as usize;
-        let gt_style = rng.below(3);
-        let blocks = (0..n)
+        let gt_style = rng.below(4);
+        let blocks: Vec<(usize, u64, usize, bool)> = (0..n)
             .map(|i| {
                 let gt = match gt_style {
                     0 => i % 2 == 1,
                     1 => i % 3 == 2,
+                    // a ticket in every block: the lottery difficulty climbs by one per block
+                    2 => i < 12,
                     _ => rng.chance(1, 2),
                 };
                 (rng.range(1, 4) as usize, rng.below(80_000), rng.below(4) as usize, gt)
             })
             .collect();
-        Plan { seed, mode: "payout".into(), prefix: 0, txs: vec![], dts: vec![], blocks, mid_chain: false, boundary: false }
+        let bad_ticket = if rng.chance(1, 2) { Some((rng.range(2, n as u64) as usize, rng.below(4) as u8)) } else { None };
+        Plan { seed, mode: "payout".into(), prefix: 0, txs: vec![], dts: vec![], blocks, mid_chain: false, boundary: false, bad_ticket }
     }
 }
 
@@ -176,7 +185,7 @@ impl Scenario for C08 {
     fn meta(&self) -> Meta {
         Meta {
             level: "exploration",
-            rule: "two families. work (a fifth of its runs: one routed transaction whose fee is exactly the integer part of parent burn fee / elapsed at an offset where the fraction is 0.6..0.95, i.e. one nolan below the rounded requirement - must be refused): parent chain of 1-3 blocks, then the same transaction set (1-6/8 payments, fee classes 0..150k nolan, path shapes valid-1/2/3 hops, none, not ending at the creator, passing through the creator but ending elsewhere, forged hop signature, non-contiguous, self-hop) bundled at two timestamp offsets drawn from {0.001, 0.05, 0.2, 0.5, 0.9, 1.5, 1.999, 2.0, 2.5} heartbeats (+jitter), each offered to a fresh replica. Oracle: accepted => every path cryptographically valid, contiguous, no self-hop; and for offset < 2 heartbeats independently computed work (u128, halving per hop after the first, only paths ending at the creator) >= parent_burnfee/offset - 1; acceptance at the smaller offset implies acceptance at the larger; offset >= 2 heartbeats needs no work. payout: histories of 4-10/20 blocks with routed fee-paying transactions and three ticket patterns; for every accepted block with a Fee transaction: each output goes to the ticket's key, to a hop recipient of a transaction in the blocks being paid (previous; and the one before when the previous had no ticket), or to the sender of a path-less transaction there; sum of outputs <= fees collected by those blocks (u128). distinct_nontrivial = distinct (offset bucket, path-shape multiset, margin sign) resp. (payout history digest).",
+            rule: "two families. work (a fifth of its runs: one routed transaction whose fee is exactly the integer part of parent burn fee / elapsed at an offset where the fraction is 0.6..0.95, i.e. one nolan below the rounded requirement - must be refused): parent chain of 1-3 blocks, then the same transaction set (1-6/8 payments, fee classes 0..150k nolan, path shapes valid-1/2/3 hops, none, not ending at the creator, passing through the creator but ending elsewhere, forged hop signature, non-contiguous, self-hop) bundled at two timestamp offsets drawn from {0.001, 0.05, 0.2, 0.5, 0.9, 1.5, 1.999, 2.0, 2.5} heartbeats (+jitter), each offered to a fresh replica. Oracle: accepted => every path cryptographically valid, contiguous, no self-hop; and for offset < 2 heartbeats independently computed work (u128, halving per hop after the first, only paths ending at the creator) >= parent_burnfee/offset - 1; acceptance at the smaller offset implies acceptance at the larger; offset >= 2 heartbeats needs no work. payout: histories of 4-10/20 blocks with routed fee-paying transactions and four ticket patterns (every 2nd, every 3rd, every block, random); for every accepted block with a Fee transaction: each output goes to the ticket's key, to a hop recipient of a transaction in the blocks being paid (previous; and the one before when the previous had no ticket), or to the sender of a path-less transaction there; sum of outputs <= fees collected by those blocks (u128). In half of the payout runs one step first offers a rival block on the same parent whose golden ticket does not solve the parent's lottery (solved at the parent's difficulty against the grandparent's / the genesis block's / a made-up hash, or aimed at the parent but below its difficulty; only where the parent's difficulty is > 0, reached through the ticket-in-every-block pattern): it must not be accepted. distinct_nontrivial = distinct (offset bucket, path-shape multiset, margin sign) resp. (payout history digest).",
             real: &["BurnFee", "Transaction::generate_total_work/validate_routing_path/get_winning_routing_node", "Block::validate (work check, golden ticket, fee transaction)", "Block::find_winning_router", "Hop"],
             stubs: &["SimIo", "SimConfig", "vendored ahash"],
             assumptions: &["secp256k1/blake3 wrappers (verify) are trusted primitives of the oracle", "genesis period >> depth"],
@@ -377,7 +386,7 @@ impl Scenario for C08 {
             let _ = n.add_block_bytes(&w.recs[0].bytes.clone());
             let mut cur = 0usize;
             let mut hist = Digest::new();
-            for (ntx, fee, hops, gt) in plan.blocks.iter() {
+            for (step, (ntx, fee, hops, gt)) in plan.blocks.iter().enumerate() {
                 let ledger = w.ledger_at(cur);
                 let prec = w.recs[cur].clone();
                 let ts = prec.ts + 2 * HB + 200;
@@ -408,6 +417,70 @@ impl Scenario for C08 {
                     txs.push(make_tx(&w.keys[1].clone(), &[], &[(w.keys[1].pk, 0)], ts + tag, &tag.to_le_bytes()));
                 }
                 let need_gt = !n.bc.is_golden_ticket_count_valid(prec.hash, *gt, false, false);
+                // a rival block whose ticket does not solve the parent's lottery
+                if let Some((at, kind)) = plan.bad_ticket {
+                    let parent: Block = w.block(cur);
+                    if at == step && parent.difficulty > 0 && parent.difficulty <= 18 {
+                        let thief = w.params.n_users + 1;
+                        let aim: [u8; 32] = match kind {
+                            0 => parent.previous_block_hash,
+                            1 => w.recs[0].hash,
+                            2 => saito_core::core::util::crypto::hash(&plan.seed.to_le_bytes()),
+                            _ => parent.hash,
+                        };
+                        // (random, key) that solve `aim` at the parent's difficulty but not the parent's hash; for
+                        // kind 3: that do not solve the parent's hash
+                        let mut salt = 0x7100 + step as u64;
+                        let ticket = loop {
+                            salt += 1;
+                            let g = if kind == 3 {
+                                let mut buf = b"unsolved".to_vec();
+                                buf.extend_from_slice(&salt.to_le_bytes());
+                                GoldenTicket::create(aim, saito_core::core::util::crypto::hash(&buf), w.keys[thief].pk)
+                            } else {
+                                mine_gt(aim, parent.difficulty, &w.keys[thief], salt)
+                            };
+                            let raw = g.serialize_for_net();
+                            let mut random = [0u8; 32];
+                            random.copy_from_slice(&raw[32..64]);
+                            let at_parent = GoldenTicket::create(parent.hash, random, w.keys[thief].pk);
+                            if !at_parent.validate(parent.difficulty) {
+                                break g;
+                            }
+                        };
+                        let spec = BlockSpec { parent: prec.hash, ts, txs: txs.clone(), gt: true, creator: 0 };
+                        if let Ok(Ok(b)) = crate::util::guarded(|| build_block_with_ticket(&w.builder, &w.keys, spec, Some((ticket, thief)))) {
+                            r.fault("block_with_unearned_golden_ticket", 1);
+                            let bytes = b.serialize_for_net(saito_core::core::consensus::block::BlockType::Full);
+                            let tip0 = n.tip();
+                            let oc = crate::util::guarded(|| n.add_block_bytes(&bytes).as_ref().map(outcome_of));
+                            match oc {
+                                Err(p) => {
+                                    r.violate(format!("C08|panic|{}", p.site()), format!("{} ({}:{})", p.msg, p.file, p.line));
+                                    break;
+                                }
+                                Ok(oc) => {
+                                    trace.str(&format!("rival {:?}", oc));
+                                    if matches!(oc, Some(AddOutcome::Added { .. })) || n.tip() != tip0 {
+                                        let names = ["solved-against-grandparent", "solved-against-genesis", "solved-against-made-up-hash", "below-difficulty"];
+                                        r.violate(
+                                            format!("C08|payout|ticket-does-not-solve-parent|{}", names[kind as usize & 3]),
+                                            format!(
+                                                "block {} (parent difficulty {}) carries a golden ticket that does not solve the parent's lottery ({}) and was accepted ({:?}); its payout goes to the ticket's key",
+                                                parent.id + 1,
+                                                parent.difficulty,
+                                                names[kind as usize & 3],
+                                                oc
+                                            ),
+                                        );
+                                        break;
+                                    }
+                                    r.probe("unearned_ticket_refused");
+                                }
+                            }
+                        }
+                    }
+                }
                 let spec = BlockSpec { parent: prec.hash, ts, txs, gt: *gt || need_gt, creator: 0 };
                 let b = match crate::util::guarded(|| build_block(&w.builder, &w.keys, spec)) {
                     Ok(Ok(b)) => b,
